@@ -7,6 +7,8 @@ From IBL.C09 Require Import Model Proofs.
 Import ListNotations.
 Open Scope Z_scope.
 
+Definition nl : string := String (Ascii.ascii_of_nat 10) EmptyString.
+
 (* Round trip.  For EVERY text f that read_meta_data accepts (any characters, any
    separators, tilde and duplicate keys, '=' inside values, empty values, scalars
    of any size) whose list values hold integers — the property's grammar —
@@ -91,8 +93,74 @@ Theorem C09_counts : forall d a l sy rest n st,
 Proof. exact counts_table. Qed.
 Print Assumptions C09_counts.
 
+(* The IMRO scanner (re.findall of five blank-separated digit runs) returns, for
+   EVERY table laid out as SpikeGLX writes it — header "(h1,h2,...)" then one
+   "(chan bank ref apgain lfgain[ filter])" group per site — exactly the first
+   five fields of every entry, in order. *)
+Theorem C09_imro_scan : forall h es, imro_scan (imro_text h es) = map entry_runs es.
+Proof. exact imro_scan_text. Qed.
+Print Assumptions C09_imro_scan.
+
+(* Volts per bit, Neuropixels 1.0 / Ultra streams, for every IMRO table and every
+   saved-channel count n = nSavedChans - nSync: entry c < n of the AP (LF) vector
+   is range / maxint / apgain_c (lfgain_c) of IMRO entry c, the following nSY
+   entries are 1, nothing else.  (CG g denotes range/maxint/g; C1 denotes 1.) *)
+Theorem C09_s2v_np1 : forall d rng mi v h es x y sy ntr st nsy,
+  int2volt d = Some (rng, mi) ->
+  lookup (lit "imroTbl") d = Some (VStr (imro_text h es)) ->
+  lookup (lit "snsApLfSy") d = Some x -> py_index x (-1) = Some y -> py_int y = Some sy -> 0 <= sy ->
+  nchannels d = Some ntr -> sync_indices d = Some (st, nsy) ->
+  version d = Some v -> is_np2 v = false ->
+  Forall (fun e => 0 <= ap_gain e) es -> Forall (fun e => 0 <= lf_gain e) es ->
+  0 <= ntr - nsy ->
+  let n := Z.to_nat (ntr - nsy) in
+  s2v d = Some (rng, mi,
+                S2Imec (map (fun e => CG (ap_gain e, O)) (firstn n es) ++ zrepeat C1 sy)
+                       (map (fun e => CG (lf_gain e, O)) (firstn n es) ++ zrepeat C1 sy)).
+Proof. exact s2v_np1. Qed.
+Print Assumptions C09_s2v_np1.
+
+(* Neuropixels 2.0: fixed gain 80 on every saved channel, 1 on sync. *)
+Theorem C09_s2v_np2 : forall d rng mi v tbl x y sy ntr st nsy,
+  int2volt d = Some (rng, mi) ->
+  lookup (lit "imroTbl") d = Some tbl ->
+  lookup (lit "snsApLfSy") d = Some x -> py_index x (-1) = Some y -> py_int y = Some sy -> 0 <= sy ->
+  nchannels d = Some ntr -> sync_indices d = Some (st, nsy) ->
+  version d = Some v -> is_np2 v = true -> 0 <= ntr - nsy ->
+  let g := zrepeat (CG (80, O)) (ntr - nsy) ++ zrepeat C1 sy in
+  s2v d = Some (rng, mi, S2Imec g g).
+Proof. exact s2v_np2. Qed.
+Print Assumptions C09_s2v_np2.
+
+(* Entry-wise reading of such a vector: length n + nSY (= nSavedChans when the
+   two sync counts agree), entry c < n carries the gain of IMRO entry c, entries
+   n .. n+nSY-1 are 1. *)
+Theorem C09_s2v_entries : forall (f : Z * Z * Z * Z * Z * option Z -> conv) es n sy c,
+  (n <= length es)%nat ->
+  let vec := map f (firstn n es) ++ zrepeat C1 sy in
+  length vec = (n + Z.to_nat sy)%nat /\
+  ((c < n)%nat -> nth_error vec c = option_map f (nth_error es c)) /\
+  ((n <= c < n + Z.to_nat sy)%nat -> nth_error vec c = Some C1).
+Proof. intros f es n sy c. exact (vector_entries f es n sy c). Qed.
+Print Assumptions C09_s2v_entries.
+
+(* Saved-channel subsets: the gains are those of IMRO entries 0..n-1 whatever
+   channels were saved — with snsSaveChanSubset=2:3 and a non-uniform table the
+   two saved channels get the gains of entries 0 and 1 (500), not of entries 2
+   and 3 (250).  Confirmed on the implementation (known finding F-C09-b). *)
+Definition subset_file : str :=
+  lit ("typeThis=imec" ++ nl ++ "imDatPrb_type=0" ++ nl ++ "imAiRangeMax=0.6" ++ nl ++ "nSavedChans=3" ++ nl ++
+       "snsApLfSy=2,0,1" ++ nl ++ "snsSaveChanSubset=2:3,8" ++ nl ++
+       "~imroTbl=(0,4)(0 0 0 500 250 1)(1 0 0 500 250 1)(2 0 0 250 125 1)(3 0 0 250 125 1)" ++ nl).
+Theorem C09_s2v_subset_refuted : exists d,
+  read_meta subset_file = Some d /\
+  lookup (lit "snsSaveChanSubset") d = Some (VStr (lit "2:3,8")) /\
+  option_map (fun r => match snd r with S2Imec ap _ => ap | S2Nidq g => g end) (s2v d)
+    = Some [CG (500, O); CG (500, O); C1].
+Proof. eexists. split; [vm_compute; reflexivity|]. split; vm_compute; reflexivity. Qed.
+Print Assumptions C09_s2v_subset_refuted.
+
 (* ---- the hypotheses are satisfiable on non-trivial inputs *)
-Definition nl : string := String (Ascii.ascii_of_nat 10) EmptyString.
 Definition ex_file : str :=
   lit ("a=1.50" ++ nl ++ "~b=x=y" ++ nl ++ "snsApLfSy=384,0,1" ++ nl ++ "a=.25" ++ nl ++
        "imDatPrb_type=0" ++ nl ++ "imDatPrb_sn=0641" ++ nl ++ "e=0.00005" ++ nl ++ "nSavedChans=385" ++ nl).
